@@ -497,6 +497,26 @@ def _check(spec, ctx, other_tmp):
                                 f"failure at {label} (prior state {prior}); after a later successful run with another "
                                 f"output path the directory of the failed run changed: {changed[:3]}")
             ctx.label("follow_up_run")
+        elif program != "gen_seq" and not flushed and writing:
+            # the failure came while the file was being composed: a later, successful gen_seq run in the same process
+            # (its own output path) must not put the unfinished file of the failed run in place
+            from polyply.src.gen_seq import gen_seq
+            follow_out = ctx.dir / "follow_out"
+            follow_out.mkdir()
+            sspec = gen_seq_input(1)
+            try:
+                gen_seq(name="seq", outpath=follow_out / "later.json", seq=sspec["seq"], inpath=[],
+                        macro_strings=sspec["macro_strings"], from_file=None, connects=sspec["connects"],
+                        modifications=sspec["modifications"], tags=sspec["tags"])
+            except Exception as err:
+                raise crash("follow_up_gen_seq:crash", err)
+            later = snapshot(outdir)
+            if later != after:
+                changed = sorted(set(later.items()) ^ set(after.items()))
+                raise Violation(f"{program}:output_appears_after_later_gen_seq",
+                                f"failure at {label} (prior state {prior}); after a later successful gen_seq run with "
+                                f"another output path the directory of the failed run changed: {changed[:3]}")
+            ctx.label("follow_up_gen_seq_run")
         ctx.label(f"fault_{program}")
         if natural:
             ctx.label("natural_failure")
